@@ -341,3 +341,6 @@ def au_post(ctx, st, result):
 
 UNITS.append(Unit("C09", "jsonargparse._formatters:DefaultHelpFormatter.add_usage", au_setup, au_post, None, expect_cover=("return",),
                   trusted=["argparse.HelpFormatter.add_usage (super()) only reads its arguments"]))
+
+from contracts.share import carried as _carried  # noqa: E402
+UNITS += _carried("C09")
